@@ -75,6 +75,25 @@ fn check_string(s: &str) -> Result<bool, (String, String)> {
     if d.is_some() != r.is_some() || d != r {
         return Err((format!("JSON deserialisation of {s:?} disagrees with from_str"), format!("{d:?} vs {r:?}")));
     }
+    // the same JSON string through the other doors of serde_json: an escaped spelling of its first
+    // character, an owned Value, a reader (none of them can lend the deserialiser a borrowed str)
+    if let Some(c) = s.chars().next() {
+        if (c as u32) < 0x10000 {
+            let esc = format!("\"\\u{:04x}{}", c as u32, &js[1 + serde_json::to_string(&c.to_string()).unwrap().len() - 2..]);
+            let d2: Option<Version> = catch_unwind(|| serde_json::from_str(&esc).ok()).map_err(|_| (format!("deserialising {esc} panics"), String::new()))?;
+            if d2 != r {
+                return Err((format!("JSON deserialisation of the escaped spelling of {s:?} disagrees with from_str"), format!("{esc}: {d2:?} vs {r:?}")));
+            }
+        }
+    }
+    let d3: Option<Version> = catch_unwind(|| serde_json::from_value(serde_json::Value::String(s.to_string())).ok()).map_err(|_| (format!("deserialising the value {s:?} panics"), String::new()))?;
+    if d3 != r {
+        return Err((format!("JSON deserialisation of {s:?} from an owned value disagrees with from_str"), format!("{d3:?} vs {r:?}")));
+    }
+    let d4: Option<Version> = catch_unwind(|| serde_json::from_reader(js.as_bytes()).ok()).map_err(|_| (format!("deserialising {s:?} from a reader panics"), String::new()))?;
+    if d4 != r {
+        return Err((format!("JSON deserialisation of {s:?} from a reader disagrees with from_str"), format!("{d4:?} vs {r:?}")));
+    }
     Ok(strict.is_some())
 }
 
